@@ -15,9 +15,11 @@ import (
 // script the end of a chosen session is injected after every step k, in each
 // of four ways, and the script is replayed from the start for every (k, way).
 
+var killReasons = []string{"", "com.myapp.kicked", "wamp.close.system_shutdown", "wamp.close.normal", "wamp.close.goodbye_and_out"}
+
 var c05Ways = []string{model.LeaveGoodbye, model.LeaveDrop, model.LeaveViolation, "kill"}
 
-var c05Weights = rpcWeights{register: 16, unregister: 3, call: 22, yield: 10, inverr: 3, cancel: 8, advance: 2, leave: 0, join: 0, foreign: 2,
+var c05Weights = rpcWeights{register: 16, unregister: 7, call: 22, yield: 10, inverr: 3, cancel: 8, advance: 2, leave: 0, join: 0, foreign: 2,
 	pubsub: 26, progInv: 12, timeoutPct: 25, progPct: 35, hotPct: 25, noFinalAdvance: true, nSteps: 14}
 
 func init() {
@@ -41,7 +43,7 @@ func init() {
 			"oracles: departure effects vs the model (caller errors, no routing to the departed, testaments once, meta events), and after all sessions left and the clock ran 3 h the hook snapshot of " +
 			"every realm/broker/dealer table equals the snapshot taken right after NewRouter; every 4th case instead runs 6 churn rounds of the script on one router and compares snapshots round over round; " +
 			"non-trivial = injection point at which the leaving session held >=1 subscription/registration, pending call (either role) or testament",
-		Required: []string{"LC1", "LC2", "LC4", "RP17", "RP18"},
+		Required: []string{"LC1", "LC2", "LC4", "LC5", "RP17", "RP18"},
 		Level:    "fault_enumeration",
 	})
 }
@@ -73,6 +75,18 @@ func c05Replay(c *Case, realm RealmSetup, steps []scriptStep, inject func(k int,
 			}
 			if inject != nil {
 				inject(len(steps), run)
+			}
+			// LC5: with every call completed, no call state may be left even
+			// though the sessions are still attached (refused and failed calls
+			// must not accumulate during the life of a session)
+			if run.Mon.NoCallState() {
+				c.Hit("LC5")
+				for name, s := range router.VerifSnapshot(run.W.Router) {
+					if s.Calls != 0 || s.Invocations != 0 || s.InvocationByCall != 0 {
+						c.Fail("LC5", fmt.Sprintf("call state left with no call pending: Calls%+d Invocations%+d InvocationByCall%+d", s.Calls, s.Invocations, s.InvocationByCall),
+							"realm %s: every call of the script has completed or was refused, sessions still attached, but the dealer holds calls=%d invocations=%d invocationByCall=%d", name, s.Calls, s.Invocations, s.InvocationByCall)
+					}
+				}
 			}
 			// everybody leaves, every timer fires
 			for i, p := range run.Mon.AliveSessions() {
@@ -216,7 +230,11 @@ func runC05(c *Case) {
 					ntPoints++
 				}
 				if way == "kill" {
-					run.Exec(model.Op{Kind: model.OpMetaCall, P: killer, Req: 9000 + uint64(k), URI: "wamp.session.kill", Args: []any{model.Ref{Kind: "sid", P: victim}}})
+					kw := map[string]any{}
+					if rs := killReasons[(k+victim)%len(killReasons)]; rs != "" {
+						kw["reason"] = rs
+					}
+					run.Exec(model.Op{Kind: model.OpMetaCall, P: killer, Req: 9000 + uint64(k), URI: "wamp.session.kill", Args: []any{model.Ref{Kind: "sid", P: victim}}, Kw: kw})
 				} else {
 					run.Exec(model.Op{Kind: model.OpLeave, P: victim, How: way})
 				}
